@@ -112,6 +112,18 @@ def _mon_block1014(m):
                 counters['C04:finalisations not observable'] += 1
                 return r
             out = snap[0][vm['start']:]
+            if len(out) % 1014 == 0 and len(vm['data']) < (len(out) // 1014) * 1012 - 2023:
+                # the file holds more than two blocks beyond what passed through write(): data reached it through an entry
+                # point this monitor does not see (a rewrite may add one, e.g. a method that takes several parts).  What was
+                # seen does not account for the file, so only the block structure is judged; data loss on such a path is
+                # for the property's own driver, which compares whole files with what it wrote.
+                counters['C04:finalisations judged on structure only (data not seen by the monitor)'] += 1
+                why = refb.well_blocked(out)
+                if why:
+                    _viol('C04', 'online:blocker_output:structure:bad_trailer', {'written_seen': len(vm['data']), 'file_len': len(out), 'detail': why})
+                vm['data'] = bytearray()
+                vm['start'] = len(snap[0])
+                return r
             why = refb.classify_blocked(out, bytes(vm['data']))
             counters['C04:finalisations judged'] += 1
             if why:
